@@ -163,12 +163,6 @@ func (u *Unit) VerifyFunc() {
 					u.errs = append(u.errs, fmt.Sprintf("cannot decide assert_call %s (%s): no call to %s here, but this function calls %s which has no contract", cl.Desig, lbl, cl.Desig, strings.Join(hs, ", ")))
 					continue
 				}
-				if all, _ := u.staticCallees(u.Fn); all[cl.Desig] {
-					// the call is there, but no explored path got to it (everything before it is
-					// behind something the engine could not follow): undecided, not a missing call
-					u.errs = append(u.errs, fmt.Sprintf("cannot decide assert_call %s (%s): the function contains such a call, but no explored path reached it", cl.Desig, lbl))
-					continue
-				}
 				o := u.getOblig(u.obligName("assert_call:"+cl.Desig, lbl+"#missing"), "assert_call", u.tagsOr(cl.Tags), u.Fn.Pos(), "assert_call "+cl.Text+" (no call to "+cl.Desig+" is reachable)")
 				o.Paths++
 				o.Failures = append(o.Failures, &Failure{Asserts: []string{"true"}, Goal: "false", Result: "sat"})
